@@ -352,7 +352,10 @@ void ezc3d::c3d::point(const std::string &name){
             dummy_frames.push_back(frame);
         point(dummy_frames);
     } else {
-        updateParameters({name});
+        // the label is the name as a point stores it (trailing spaces removed), so that frames can match it
+        ezc3d::DataNS::Points3dNS::Point emptyPoint;
+        emptyPoint.name(name);
+        updateParameters({emptyPoint.name()});
     }
 }
 
@@ -398,7 +401,10 @@ void ezc3d::c3d::analog(const std::string &name)
             dummy_frames.push_back(frame);
         analog(dummy_frames);
     } else {
-        updateParameters({}, {name});
+        // the label is the name as a channel stores it (trailing spaces removed), so that frames can match it
+        ezc3d::DataNS::AnalogsNS::Channel emptyChannel;
+        emptyChannel.name(name);
+        updateParameters({}, {emptyChannel.name()});
     }
 }
 
